@@ -189,6 +189,25 @@ CLAIMED = {
                 "socket is observed by the harness (differential against the server's view).",
         "technique": "Lean 4 proof (Base64 round trip by recursion on 3-byte groups, omega) + loopback-server observation",
     },
+    "C11": {
+        "text": "Lean theorem get_refines_map: along EVERY history of put/get/purge/clear/clock-advance/reopen/"
+                "foreign-version/tear/vanish over any ids and instances (own durations) every lookup returns nothing "
+                "or the object most recently stored under that id, and only while fresh for the asking instance "
+                "(invariant: a file always carries - possibly damaged - bytes of the latest store); damaged and "
+                "expired entries read as a miss and are removed; a foreign version stamp empties the cache. The "
+                "model's one assumption (the decoder rejects damaged bytes) is validated by the crash sweep: cached "
+                "documents and pickled WSDLs truncated at byte offsets and with zero-filled tails must read as None "
+                "and be removed. Correspondence: exhaustive 3-step (4 thorough) and random histories on real "
+                "ObjectCache/DocumentCache with patched clock/ctime; multi-process stress (never an exception, only "
+                "values some process stored); write failures at open/write/close and an unwritable location; cold vs "
+                "warm clients x policy x cache class (no fetch when warm, same fingerprint as cache-less, call-time "
+                "options honoured, no cache write during invocations, ids do not alias).",
+        "design_ref": "DESIGN.md section 6 C11",
+        "note": "PARTIAL under concurrency: 'most recent' is not claimed for concurrent writers (OS may split writes); "
+                "pickle/expat/file system are trusted; URL ids rely on MD5 not colliding.",
+        "technique": "Lean 4 proof (invariant by induction over operation histories, refinement to a map) + "
+                     "crash-point sweep + history correspondence",
+    },
 }
 
 NOT_YET = "check not built yet in this round (design in DESIGN.md section 6); not claimed"
